@@ -5,6 +5,7 @@
 package types
 
 import (
+	"fmt"
 	"reflect"
 
 	"github.com/open2b/scriggo/internal/runtime"
@@ -42,3 +43,15 @@ type emptyInterfaceProxy struct {
 	value reflect.Value
 	sign  runtime.ScriggoType
 }
+
+// Format implements fmt.Formatter: a value of a type defined in Scriggo code,
+// passed to a function of the fmt package, is formatted as its underlying
+// value is.
+func (p emptyInterfaceProxy) Format(f fmt.State, verb rune) {
+	if !p.value.IsValid() || !p.value.CanInterface() {
+		fmt.Fprint(f, "<nil>")
+		return
+	}
+	fmt.Fprintf(f, fmt.FormatString(f, verb), p.value.Interface())
+}
+
